@@ -1325,7 +1325,6 @@ class BDD(dd._abc.BDD[_Ref]):
         cache[u] = r
         return r
 
-    @_try_to_reorder
     def quantify(
             self,
             u:
@@ -1347,6 +1346,23 @@ class BDD(dd._abc.BDD[_Ref]):
             then quantify `qvars` universally,
             else existentially.
         """
+        # `qvars` can be an iterator, which can be
+        # read once, whereas the method below is
+        # called again after reordering
+        return self._quantify_root(
+            u, set(qvars), forall)
+
+    @_try_to_reorder
+    def _quantify_root(
+            self,
+            u:
+                _Ref,
+            qvars:
+                set[_VariableName],
+            forall:
+                _Yes
+            ) -> _Ref:
+        """Quantify, serving reordering requests."""
         qvars = self._map_to_level(set(qvars))
         cache = dict()
         ordvar = sorted(qvars)
@@ -2337,7 +2353,6 @@ class BDD(dd._abc.BDD[_Ref]):
                 f'`self` ({self!r})')
         return i
 
-    @_try_to_reorder
     def cube(
             self,
             dvars:
@@ -2345,10 +2360,22 @@ class BDD(dd._abc.BDD[_Ref]):
                 _abc.Iterable[
                     _VariableName]
             ) -> _Ref:
+        # `dvars` can be an iterator, which can be
+        # read once, whereas the method below is
+        # called again after reordering
         if not isinstance(dvars, dict):
             dvars = {
                 k: True
                 for k in dvars}
+        return self._cube_root(dvars)
+
+    @_try_to_reorder
+    def _cube_root(
+            self,
+            dvars:
+                _Assignment
+            ) -> _Ref:
+        """Return cube, serving reordering requests."""
         # `dvars` keys can be var names or levels
         r = self.true
         for var, val in dvars.items():
